@@ -326,6 +326,15 @@ def run_case(case):
             hit = shared_temporary(main, obs)
             if hit:
                 obs["viols"].append({"sig": "C09/temporary-shared-by-two-values", "detail": dict(detail, identifier=hit)})
+            # the numeric and the string array of one name are two arrays to every pass: when the program uses both, a
+            # declaration for one of them only means a pass keyed them by the bare name
+            used_arr = {name for name, idx, nsub, fld in inf.uses if name in all4 and name.startswith("arr_") and nsub}
+            decl_arr = {name for name, dims, ty, kind, idx in inf.decls if name in all4 and name.startswith("arr_")}
+            pair_ = {"arr_" + c, "arr_" + c + "$"}
+            if pair_ <= used_arr:
+                obs["counters"]["array_pair_checks"] = obs["counters"].get("array_pair_checks", 0) + 1
+                if len(pair_ & decl_arr) == 1:
+                    obs["viols"].append({"sig": "C09/arrays-of-one-name-declared-as-one", "detail": dict(detail, declared=sorted(pair_ & decl_arr), used=sorted(pair_))})
             both = sorted(nm2 for nm2, ks in kinds.items() if len(ks) > 1)
             obs["counters"]["kind_checks"] = len(kinds)
             if both:
